@@ -1,4 +1,5 @@
 import HexProofs.Manager.Fill
+import HexProofs.Writes.MembersC12
 import HexProps.C03
 import HexProofs.Framework.Fill
 import HexProofs.Manager2.FillReadingsSpec
@@ -165,5 +166,29 @@ example : (runSchedule (cfgOf 60) [readingsDemo[0]]
     = some [ ⟨some 120, 30, [], []⟩, ⟨some 180, 0, [], []⟩, ⟨some 240, 0, [], []⟩,
              ⟨some 300, 5, [("X", some 5)], [("Y", some 7)]⟩, ⟨some 360, 3, [("X", some 5)], []⟩,
              ⟨some 420, 1, [], []⟩ ] := by decide +kernel
+
+/-! ### member managers of a gap-filling Hexital (HexProofs/Writes/MembersC12.lean) -/
+
+/-- **C12 inside a Hexital**: for a gap-filling Hexital (any Hexital-level timeframe) every member's manager – on the
+member's own timeframe or the Hexital's – holds the filled resampling of the raw stream received, after any program of
+façade operations; that list is contiguous, aligned, strictly increasing and only adds flat fill candles. -/
+theorem member_schedule_readings {N : List String} {members : List (Member F)} {mem : Member F}
+    (hm : MemberHyps N members mem) (htfx : Option Int) (tfn : Option String) (tf : Int) (htf : 0 < tf)
+    (heff : mem.effTf htfx = some tf) (init : List (Candle F)) (ops : List (TwinOp F)) (H : Hexital F)
+    (hops : ∀ op, op ∈ ops → op.OK N mem.tree.name)
+    (h : RawStream (init ++ (appendedBy ops).flatten))
+    (hrun : runHexital { tf := htfx, fill := true } tfn init members ops = .ok H) :
+    ∃ m, H.memberManager mem.tree.name = some m ∧ m.cfg = cfgOf tf ∧
+      m.candles.map Candle.core = (fillSpec tf (init ++ (appendedBy ops).flatten)).map Candle.core ∧
+      fillMissing tf (resample tf (init ++ (appendedBy ops).flatten))
+        = .ok (fillSpec tf (init ++ (appendedBy ops).flatten)) ∧
+      Contiguous tf (fillSpec tf (init ++ (appendedBy ops).flatten)) ∧
+      Bucketed tf (fillSpec tf (init ++ (appendedBy ops).flatten)) ∧
+      FilledFrom (resample tf (init ++ (appendedBy ops).flatten)) (fillSpec tf (init ++ (appendedBy ops).flatten)) :=
+  member_fill hm htfx tfn tf htf heff init ops H hops (rawR_of h) hrun
+
+example := @MembersC12Ex.appliedF
+
+#print axioms member_schedule_readings
 
 end Hex.C12
